@@ -422,10 +422,11 @@ func (s *State) diffIOSACLs(al, bl []*cmd, diff []edit.Range) {
 	}
 	// Generate move command which sends add and delete command together
 	// as a single command.
-	// Ignore move if both positions belong to the same block.
+	// Ignore move if both positions belong to the same block
+	// and attribute 'log' is unchanged.
 	moveACL := func(a *cmdAndPos, b *cmd, before, i int, moveOK bool) {
 		defer func() { a.cmd = nil }()
-		if moveOK {
+		if moveOK && getPrintableCmd(a.cmd, s.a) == s.printNetspocCmd(b) {
 			oldID := idx2Block[a.pos]
 			if before > 0 && idx2Block[before-1] == oldID {
 				return
